@@ -150,8 +150,11 @@ class Walk:
             self.visit(obj._params, id(obj), "params")
             if isinstance(obj, BaseQPDGate):
                 self.visit(obj._basis, id(obj))
+            # the cached definition; an EMPTY cached definition is skipped: Instruction.__deepcopy__ copies the definition
+            # only `if self._definition:` and an empty QuantumCircuit is falsy, so Qiskit itself shares it between a gate
+            # and its copies (observation, recorded in lib/props.d/C16.py)
             d = getattr(obj, "_definition", None)
-            if d is not None:
+            if isinstance(d, QuantumCircuit) and len(d.data) > 0:
                 self.visit(d, id(obj))
             return
         if isinstance(obj, (PauliList, Pauli)):
@@ -911,7 +914,7 @@ def run_entry(entry, inplace, d, w=None):
             # those of generate_qpd_weights under the same seed (oracle, monitored through the number of coefficients)
             ns, sd = d["num_samples"], d["np_seed"]
             np.random.seed(sd)
-            samples = [list(t) for t in generate_qpd_weights(bases, ns).keys()]
+            samples = [[int(j) for j in t] for t in generate_qpd_weights(bases, ns).keys()]
 
             def call(a):
                 np.random.seed(sd)
@@ -944,8 +947,19 @@ def run_entry(entry, inplace, d, w=None):
             pp = partition_problem(qc0, "AB", obs)
             exps, coeffs = generate_cutting_experiments(pp.subcircuits, pp.subobservables, np.inf)
             if form == "dict-v2":
-                from qiskit.primitives import StatevectorSampler
-                results = {k: StatevectorSampler(seed=7).run(v, shots=8).result() for k, v in exps.items()}
+                # SamplerV2-shaped results built directly (values are irrelevant for C16, only the object structure
+                # PrimitiveResult -> SamplerPubResult -> DataBin -> BitArray.array matters)
+                from qiskit.primitives.containers import BitArray, DataBin, SamplerPubResult, PrimitiveResult
+
+                def pub(x):
+                    regs = {r.name: r.size for r in x.cregs}
+                    fields = {}
+                    for name in ("qpd_measurements", "observable_measurements"):
+                        n = regs[name]
+                        arr = np.array([[(j + t) % 2 for t in range((n + 7) // 8)] for j in range(4)], dtype=np.uint8)
+                        fields[name] = BitArray(arr, n)
+                    return SamplerPubResult(DataBin(**fields, shape=()), metadata={"shots": 4})
+                results = {k: PrimitiveResult([pub(x) for x in v], metadata={"version": 2}) for k, v in exps.items()}
             else:
                 results = {k: ExactSampler().run(v).result() for k, v in exps.items()}
             sobs = pp.subobservables
@@ -1077,8 +1091,8 @@ def generate(rng, tier, outdir):
     global PROBE_REF
     PROBE_REF = probe()   # pristine reference for "later calls on new inputs", taken before any destructive edit
     quick = tier == "quick"
-    N = dict(pcq=80, cut_gates=80, partition=110, cut_wires=80, expand=30, find_cuts=40, generate=44, dqi=70, reconstruct=12,
-             inplace=75, separate=40) if quick else \
+    N = dict(pcq=70, cut_gates=70, partition=100, cut_wires=70, expand=30, find_cuts=36, generate=44, dqi=60, reconstruct=12,
+             inplace=66, separate=36) if quick else \
         dict(pcq=400, cut_gates=400, partition=500, cut_wires=400, expand=150, find_cuts=200, generate=200, dqi=300,
              reconstruct=48, inplace=300, separate=250)
     w.notes.append("known classes routed to the current-behaviour checker: " + (",".join(sorted(known)) or "none"))
@@ -1149,6 +1163,10 @@ def generate(rng, tier, outdir):
                 o = cd["ops"][k]
                 if "src" in o and o.get("bid") is None:
                     o["bid"] = int(rng.integers(0, 6))
+                if o.get("src") == "rzx" and not WITH_UNITARY:
+                    # a cached definition of a KAK gate holds UnitaryGate objects; circuit.copy() deep-copies the cached
+                    # definition but Qiskit's copy shares the matrix arrays (the UnitaryGate observation) - opt-in only
+                    o.pop("read_def", None)
             du["map_none"] = True
         elif it % 5 == 2 and qids and not any("same" in cd["ops"][k] for k in qids):     # pairs of SingleQubitQPDGates
             du["pairs"] = True
